@@ -555,7 +555,10 @@ def r6(ctx):
         a.op, ast.Add) for a in adv)
     if ok:
         gs = [[(src(t), p) for t, p in U.guards(a)] for a in adv]
-        ok = gs[0][0][0] == gs[1][0][0] == 'self.byp_flow_rate > 0' and \
+        # (one test on the bypass flow of the region -- the array reduced
+        # with np.sum / np.any, see G7 -- selects the model)
+        ok = gs[0][0][0] == gs[1][0][0] and \
+            'byp_flow_rate' in gs[0][0][0] and \
             gs[0][0][1] != gs[1][0][1] and \
             call_name(adv[0].value) == 'self._calc_coolant_byp_temp' and \
             call_name(adv[1].value) == \
